@@ -400,12 +400,41 @@ func (ct *cacheTrial) violation(entry, class string, pi *panicInfo, op string, m
 	ct.env.dead = true
 }
 
-func (ct *cacheTrial) stateFor(n *pb.Notification) *cacheState {
+func (ct *cacheTrial) stateFor(n *pb.Notification) *cacheState { return ct.env.stateFor(n) }
+
+func (e *cacheEnv) stateFor(n *pb.Notification) *cacheState {
 	t := n.GetPrefix().GetTarget()
-	leaves := ct.env.leaves[t]
+	leaves := e.leaves[t]
 	st := &cacheState{targetEmpty: len(leaves) == 0}
 	st.stored = func(idx []string) *pb.Notification { return leaves[model.Key(idx)] }
 	return st
+}
+
+// culprit finds, for a multi-part notification that panicked, the single part
+// that reproduces the same kind of failure on its own (through the same
+// guarded call), first against a fresh cache in the trial's kind of state and
+// then against an empty one. It returns that part and the state it failed in;
+// if no single part reproduces the failure, the whole message and its state.
+func (ct *cacheTrial) culprit(n *pb.Notification, st *cacheState, pi *panicInfo) (*pb.Notification, *cacheState, string) {
+	for i, sp := range singleParts(n) {
+		for _, variant := range []string{ct.env.kind, "empty"} {
+			var env *cacheEnv
+			if guard(func() { env = buildState(variant, rand.New(rand.NewSource(1)), baseTS-2*int64(time.Second)) }) != nil {
+				continue
+			}
+			if env.snapshot() != nil {
+				continue
+			}
+			sst := env.stateFor(sp)
+			c := proto.Clone(sp).(*pb.Notification)
+			p2 := guard(func() { env.c.GnmiUpdate(c) })
+			env.close()
+			if p2 != nil && p2.Kind == pi.Kind {
+				return sp, sst, fmt.Sprintf("part %d of the message reproduces it alone on a fresh %q cache: %s", i, variant, ptext(sp))
+			}
+		}
+	}
+	return n, st, ""
 }
 
 // confused reports whether some leaf under meta/ holds a value of another
@@ -463,7 +492,11 @@ func (ct *cacheTrial) message(n *pb.Notification, wire []byte) string {
 	ct.hash = append(ct.hash, wire)
 	if pi != nil {
 		ct.r.Count("cache_ingest_panics", 1)
-		ct.violation("cache-ingest", cacheClass(pi, n, st), pi, "GnmiUpdate", n)
+		part, pst, note := ct.culprit(n, st, pi)
+		if note != "" {
+			ct.hist = append(ct.hist, histEntry{Op: "isolation", Out: note})
+		}
+		ct.violation("cache-ingest", cacheClass(pi, part, pst), pi, "GnmiUpdate", n)
 		return "panic"
 	}
 	out := errClass(err)
